@@ -120,6 +120,8 @@ pub fn execute<H: Helper>(
                     // the cursor is moved back onto the last character put:
                     // the text before it is no longer what a yank-pop would replace
                     kill_ring.reset();
+                } else {
+                    kill_ring.repeated(usize::from(n));
                 }
             }
         }
